@@ -11,7 +11,7 @@ META = {
     "level": "translation_validation",
     "engine": "E1 artifact-level SMT: for ALL input valuations and ALL stable states (consistent valuations) of the cyclic circuit, the unrolled circuit with aux inputs at the stable values reproduces every output",
     "hashseeds": {"quick": [0, 1], "thorough": [0, 1, 2, 3, 4, 5, 6, 7]},
-    "shards": {"quick": 8, "thorough": 2},
+    "shards": {"quick": 8, "thorough": 4},
     "bounds": {
         "quick": "F-cyc (latches, even/odd rings, nested, overlapping, two SCCs, outputs inside/outside cycles) + 50 seeded random cyclic circuits (<=11 nodes, 1..3 back edges, no self-loops)",
         "thorough": "same + 500 random cyclic circuits, 8 hash seeds",
